@@ -324,7 +324,8 @@ where
     #[inline(always)]
     unsafe fn get_unchecked(&self, i: usize) -> Self::Item {
         let mut cur_i = i;
-        let mut result: u32 = 0;
+        let mut result: u32 = 0; // code read so far (compressed)
+        let mut result_plain = T::zero(); // symbol read so far (not compressed)
 
         let mut shift = 0;
 
@@ -335,6 +336,7 @@ where
 
             let symbol = self.bvs[level].get_unchecked(cur_i);
             result = (result << 1) | symbol as u32;
+            result_plain = (result_plain << 1) | (symbol as usize).as_();
 
             let tmp = self.bvs[level].rank1_unchecked(cur_i);
 
@@ -353,7 +355,7 @@ where
 
             T::from(self.codes_decode.as_ref().unwrap()[shift][idx].1).unwrap()
         } else {
-            T::from(result).unwrap()
+            result_plain
         }
     }
 }
@@ -397,12 +399,16 @@ where
             symbol_len = code.len as usize;
             repr = code.content;
         } else {
-            repr = symbol.as_() as u32;
+            repr = 0; // not used: bits are taken from `symbol` itself
             symbol_len = self.n_levels;
         }
 
         for level in 0..symbol_len {
-            let bit = ((repr >> (symbol_len - level - 1)) & 1) == 1;
+            let bit = if COMPRESSED {
+                ((repr >> (symbol_len - level - 1)) & 1) == 1
+            } else {
+                ((symbol >> (symbol_len - level - 1)).as_() & 1) == 1
+            };
 
             let offset = self.bvs[level].n_zeros();
 
@@ -445,7 +451,7 @@ where
             symbol_len = code.len as usize;
             repr = code.content;
         } else {
-            repr = symbol.as_() as u32;
+            repr = 0; // not used: bits are taken from `symbol` itself
             symbol_len = self.n_levels;
         }
         let mut b = 0;
@@ -456,7 +462,11 @@ where
         for level in 0..symbol_len {
             path_off.push(b);
 
-            let bit = ((repr >> (symbol_len - level - 1)) & 1) == 1;
+            let bit = if COMPRESSED {
+                ((repr >> (symbol_len - level - 1)) & 1) == 1
+            } else {
+                ((symbol >> (symbol_len - level - 1)).as_() & 1) == 1
+            };
 
             let rank_b = if bit {
                 self.bvs[level].rank1(b)
@@ -473,7 +483,11 @@ where
         for level in (0..symbol_len).rev() {
             b = path_off[level];
             let rank_b = rank_path_off[level];
-            let bit = ((repr >> (symbol_len - level - 1)) & 1) == 1;
+            let bit = if COMPRESSED {
+                ((repr >> (symbol_len - level - 1)) & 1) == 1
+            } else {
+                ((symbol >> (symbol_len - level - 1)).as_() & 1) == 1
+            };
 
             let k = rank_b.checked_add(result)?;
             result = if bit {
